@@ -24,7 +24,7 @@ func init() {
 			"C04.8 every table shared by the clients of a listener (map fields of Manager, Server, Request) is keyed by a type that is or contains the 5-tuple fingerprint; " +
 			"C04.6 package server obtains *Allocation values only from the keyed lookups and CreateAllocation; " +
 			"C04.9 requests are handled on the read loop's own goroutine, or a hand-off to goroutines is conditioned on a per-5-tuple busy table.",
-		NotCovered: "interleavings (the check-then-insert window between GetAllocation and the insert); cross-talk through operator callbacks.",
+		NotCovered: "interleavings beyond the necessary condition of C04.9 (that a per-client busy table is maintained correctly; the check-then-insert window between GetAllocation and the insert if handlers of one 5-tuple did run concurrently); cross-talk through operator callbacks.",
 		Run:        runC04,
 	})
 }
